@@ -1145,7 +1145,7 @@ func smallThriftBoolElemNormalised(c *core.Ctx, b *ob) {
 		return
 	}
 	n := 0
-	for _, name := range []string{"thrift.decodeFuncSliceOf$1", "thrift.decodeFuncMapAsSetOf$1"} {
+	for _, name := range []string{"thrift.decodeFuncSliceOf$1", "thrift.decodeFuncMapAsSetOf$1", "thrift.decodeFuncMapOf$1"} {
 		fn := c.Lookup(name)
 		key := "thrift:bool-element-type-normalised:" + closureIndex.ReplaceAllString(name, "")
 		if fn == nil {
